@@ -173,7 +173,17 @@ func (m *Machine) CallFunc(pos token.Pos, fn *types.Func, recv Value, args []Val
 		if ext, ok := m.Ext[OpaqueMethodKey(o.Kind, fn.Name())]; ok {
 			return ext(m, pos, recv, args)
 		}
-		return nil, undecided(pos, "method %s on a %s value has no model", fn.Name(), o.Kind)
+		// no model: the result is unknown (conditions on it are explored both ways; printing it is undecided)
+		m.Notes = append(m.Notes, Note{Rule: "H-UNMODELLED", Key: o.Kind + "." + fn.Name(), Pos: pos, Msg: "method " + fn.Name() + " of a " + o.Kind + " value has no model"})
+		sig, _ := fn.Type().(*types.Signature)
+		if sig != nil && sig.Results().Len() > 1 {
+			var t Tuple
+			for i := 0; i < sig.Results().Len(); i++ {
+				t = append(t, &Unknown{Why: fmt.Sprintf("%s.%s()#%d", o.ID, fn.Name(), i)})
+			}
+			return t, nil
+		}
+		return &Unknown{Why: o.ID + "." + fn.Name() + "()"}, nil
 	}
 	if ext, ok := m.Ext[fn.FullName()]; ok {
 		return ext(m, pos, recv, args)
